@@ -400,8 +400,9 @@ theorem resave_bin_height0_violates :
          | _ => false)
      | _ => false) = true := by decide +kernel
 
-/-- **Excluded from the Tundra clause, and really false:** a Tundra file without cells whose SAUCE record (height field 0, as
-    every Tundra record) says 80 columns loads as 80 x 0; re-saved WITHOUT a SAUCE record it loads as 80 x 25. -/
+/-- **Excluded from the Tundra clause, and really false:** a Tundra file without cells whose SAUCE record (height field 0: a
+    foreign record, or the engine's own record of a picture without rows — since `fix: SAUCE record of a Tundra file …` the
+    engine writes the picture's height) says 80 columns loads as 80 x 0; re-saved WITHOUT a SAUCE record it loads as 80 x 25. -/
 theorem resave_tnd_height0_violates :
     (match fromBytes .tnd ([BinFmt.tndVersion] ++ BinFmt.tndHeader ++ sauceRec 1 8 80 0) with
      | .ok g => g.bh == 0 && g.bw == 80 &&
